@@ -5,7 +5,7 @@ import os
 
 ROOT = os.path.dirname(os.path.dirname(os.path.abspath(__file__)))
 PY = "/venv/bin/python -B -m vf.run"
-COMMON = " Every second shard runs batchie with DEBUG logging enabled and passes -v to the commands it runs, every fourth shard runs under python -O (assert statements stripped), another fourth with the cyclic garbage collector off; a fifth of the generated screens and 15 % of the posterior-sample blocks hand their arrays over in other containers (strided, reversed, column-major, offset windows, read-only where nothing writes); workloads include the stored seeded changes' input classes (seeded/*/meta.json): degenerate but legal data, numerically delicate regimes, objects with a past (refused calls followed by legal ones, long-lived scorer / smoother / policy objects, copies by copy / deepcopy / pickle), arrays and lists the caller keeps and rewrites, equivalent spellings of a call (positional / keyword, list / set / tuple, str / Path), user-defined subclasses of the library's base classes, and one configuration per run at real-world scale."
+COMMON = " Every second shard runs batchie with DEBUG logging enabled and passes -v to the commands it runs, every fourth shard runs under python -O (assert statements stripped), another fourth with the cyclic garbage collector off; a fifth of the generated screens and 15 % of the posterior-sample blocks hand their arrays over in other containers (strided, reversed, column-major, offset windows, read-only where nothing writes); workloads include the stored seeded changes' input classes (seeded/*/meta.json): degenerate but legal data, numerically delicate regimes, objects with a past (refused calls followed by legal ones, long-lived scorer / smoother / policy objects, copies by copy / deepcopy / pickle), arrays and lists the caller keeps and rewrites, equivalent spellings of a call (positional / keyword, list / set / tuple, str / Path), user-defined subclasses of the library's base classes, one configuration per run at real-world scale, files and objects with a past (paths that held another object before, generators / smoothers / scorers applied to other data before), second runs at the other verbosity and with generators in equal state made by other routes."
 
 CHECKS = {
     "C01": dict(
